@@ -251,7 +251,7 @@ def check_enum(c, rec):
 
 
 def subchecks():
-    return [SubCheck("split", check_split, split_cases, quick=600, thorough=10000, shards_quick=2, shards_thorough=4),
-            SubCheck("loader", check_loader, loader_cases, quick=500, thorough=8000, shards_quick=2, shards_thorough=4),
+    return [SubCheck("split", check_split, split_cases, quick=1500, thorough=10000, shards_quick=3, shards_thorough=4),
+            SubCheck("loader", check_loader, loader_cases, quick=1200, thorough=8000, shards_quick=3, shards_thorough=4),
             SubCheck("one_hot", check_onehot, onehot_cases, quick=400, thorough=5000),
             SubCheck("small_grid", check_enum, None, enum=enum_small, exhaustive=True, shards_quick=4, shards_thorough=8)]
